@@ -391,6 +391,72 @@ def ob_dtype(kind, date_kind):
     return Ob("C06.dtype[%s,dates=%s]" % (kind, date_kind), "B", body, clause="heights are those of the defining recursion whatever the dtype the dates are written in", funcs=FUNCS)
 
 
+def ob_topology_edit(kind):
+    """the topology of a LIVE model is changed in place (two subtrees exchanged on `model.tree`) and the model is re-initialised through its
+    own hooks (setup_indexes, update_traversals, transform.update_bounds, transform.sort_indices), new parameter values assigned: the
+    model is then the model of the new topology - node heights, branch lengths and inverse equal those of a model built afresh from it"""
+    def body():
+        from torchtree.evolution.tree_model import setup_indexes
+        n = 0
+        names = NAMES[:5]
+        cases = [(((0, 1), 2), (3, 4)), ((((0, 1), 2), 3), 4)]
+        for tree in cases:
+            for dates in ([0.0, 0.0, 0.0, 0.0, 0.0], [0.0, 2.0, 1.0, 0.5, 3.0], [2010.0, 2012.5, 2011.25, 2015.0, 2013.75]):
+                for batch in ((), (3,)):
+                    g = torch.Generator().manual_seed(5 + n)
+                    def draw():
+                        if kind == "ratios":
+                            r = torch.rand(batch + (3,), generator=g, dtype=torch.float64) * 0.8 + 0.1
+                            return torch.cat((r, torch.rand(batch + (1,), generator=g, dtype=torch.float64) + max(treemodels.ages_of(dates)) + 1.0), -1)
+                        return torch.rand(batch + (4,), generator=g, dtype=torch.float64) + 0.2
+                    tm, _ = treemodels.build_reparam(tree, names, dates, draw(), kind)
+                    tm.node_heights, tm.branch_lengths()          # every lazily built value exists before the edit
+                    # exchange leaf 0 ("A") with the subtree that is the sibling of A's parent
+                    t = tm.tree
+                    a = [nd for nd in t.leaf_node_iter() if nd.taxon.label == names[0]][0]
+                    pa = a.parent_node
+                    gp = pa.parent_node
+                    b = [c for c in gp.child_nodes() if c is not pa][0]
+                    pa.remove_child(a)
+                    gp.remove_child(b)
+                    pa.add_child(b)
+                    gp.add_child(a)
+                    setup_indexes(t)
+                    tm.update_traversals()
+                    for hook in ("update_bounds", "sort_indices"):      # the ratio transform keeps index tables of its own
+                        if hasattr(tm.transform, hook):
+                            getattr(tm.transform, hook)()
+                    x = draw()
+                    treemodels.tree_parameter(tm).tensor = x.clone()
+                    newick = t.as_string(schema="newick", suppress_rooting=True, suppress_edge_lengths=True, suppress_internal_node_labels=True).strip()
+                    from torchtree.core.parameter import Parameter
+                    from torchtree.evolution.tree_model import ReparameterizedTimeTreeModel, initialize_dates_from_taxa, parse_tree
+                    taxa = treemodels.make_taxa(names, dates)
+                    t2 = parse_tree(taxa, {"newick": newick})
+                    initialize_dates_from_taxa(t2, taxa)
+                    fresh = ReparameterizedTimeTreeModel("fresh", t2, taxa, **({"ratios_root_height": Parameter("p2", x.clone())} if kind == "ratios" else {"shifts": Parameter("p2", x.clone())}))
+                    n += 1
+                    if [tuple(r) for r in tm.postorder] != [tuple(r) for r in fresh.postorder]:
+                        raise Undecided("the edited tree and the tree parsed from its own NEWICK string are indexed differently: the comparison is not meaningful")
+                    for what, a_, b_ in (("node heights", tm.node_heights, fresh.node_heights), ("branch lengths", tm.branch_lengths(), fresh.branch_lengths()),
+                                         ("inverse of the node heights", tm.transform.inv(tm.node_heights[..., 5:]), x)):
+                        if a_.shape != b_.shape or not torch.allclose(a_, b_, rtol=1e-10, atol=1e-10):
+                            raise Refuted("%s, topology %s edited in place to %s and re-initialised (dates %s, batch %s): %s are %s, a model built from the new topology has %s" % (
+                                kind, tree, newick, dates, batch, what, a_.tolist(), b_.tolist()), witness={"kind": kind, "tree": str(tree), "dates": dates, "batch": list(batch)},
+                                confirmed=True, replay={"kind": "custom", "contract": "C06", "func": "replay_topology_edit", "args": {"kind": kind}})
+        return {"backend": "concrete", "cases": n, "bounded": "2 topologies x 3 date patterns x batch () and (3,), one subtree exchange each",
+                "statement": "%s: after an in-place subtree exchange and re-initialisation the live model equals a model built from the new topology" % kind}
+    return Ob("C06.topology_edit[%s]" % kind, "B", body, clause="valid and invertible for the CURRENT topology of a live model (bounded)", funcs=FUNCS)
+
+
+def replay_topology_edit(args):
+    try:
+        ob_topology_edit(args["kind"]).fn()
+    except Refuted as e:
+        return False, e.detail
+    return True, "held"
+
+
 def replay_dtype(args):
     try:
         ob_dtype(args["kind"], args["date_kind"]).fn()
@@ -522,6 +588,7 @@ def obligations(tier, seed):
         obs.append(ob_frame_transformed(op))
     for kind in ("ratios", "shifts"):
         obs.append(ob_inplace_update(kind))
+        obs.append(ob_topology_edit(kind))
         for dk in ("int", "int_ages", "float"):
             obs.append(ob_dtype(kind, dk))
     for dk in ("int", "int_ages", "float"):
